@@ -30,6 +30,8 @@ BOUND = ("dimension 1..3; K=2..3 classes labelled 0..K-1 (Gaussian blobs, well s
          "occurs in the learning part (by construction); query DataSets are always fresh, unscaled objects")
 RULE = BOUND + "; one case = (data seed, configuration, operation list with their seeds); non-trivial = learning completed and at least one operation ran"
 CLAUSES = {
+    "B.class.density_kernel": "the hat evaluation the class densities are computed with (completely vectorised non-symmetric hat of the component-grid interpolation) equals the product of the "
+                              "1-D piecewise-linear hats (own formula) at samples in general position AND at samples whose coordinates lie exactly on grid lines / at hat centres, abs 1e-12",
     "B.learn.completes": "Classification(...) and perform_classification(_dimension_wise) return normally on the stated configurations (precondition of all other clauses)",
     "B.scale.fixed": "get_dataset_range()/get_scale_factor() equal the range of the labelled raw samples (or the supplied box) and 0.99/extent; learning+testing data are "
                      "exactly the labelled raw samples inside the range at position (x-min)*0.99/extent+0.005 with their labels; every DataSet returned by __call__ and "
@@ -599,7 +601,51 @@ def directed():
     return out
 
 
+def density_kernel_cases(ctx):
+    """samples exactly on grid lines decide classes as every other sample does: the hat kernel of the density interpolation must give them the hat values (1 at the hat's
+    own centre, 0 at the neighbouring grid points, linear in between) -- a sample that sits on a grid line of the learning scaling is the special input (missed seed C19_8)"""
+    import itertools
+    import random
+    from types import SimpleNamespace
+    from sparseSpACE.GridOperation import DensityEstimation
+    site = "sparseSpACE.GridOperation:MachineLearning.hat_function_non_symmetric_completely_vectorized"
+    rng = random.Random(19)
+
+    def hat(x, lo, p, hi):
+        if x == p:
+            return 1.0
+        if x < p:
+            return 0.0 if (lo == p or x <= lo) else (x - lo) / (p - lo)
+        return 0.0 if (hi == p or x >= hi) else (hi - x) / (hi - p)
+    for d, stripes in ((1, [[0.0, 0.25, 0.5, 0.75, 1.0]]), (2, [[0.0, 0.125, 0.25, 0.5, 1.0], [0.0, 0.5, 0.75, 1.0]]), (2, [[0.0, 0.25, 0.5, 0.75, 1.0], [0.0, 0.25, 0.5, 0.75, 1.0]]),
+                       (3, [[0.0, 0.5, 1.0], [0.0, 0.25, 0.5, 1.0], [0.0, 0.5, 0.75, 1.0]])):
+        ctx.case({"kind": "density-kernel", "d": d, "stripes": stripes}, nontrivial=True)
+        idx = list(itertools.product(*[range(1, len(s_) - 1) for s_ in stripes]))          # interior grid points carry the hats (no boundary points)
+        P = np.array([[stripes[k][i[k]] for k in range(d)] for i in idx])
+        LO = np.array([[stripes[k][i[k] - 1] for k in range(d)] for i in idx])
+        HI = np.array([[stripes[k][i[k] + 1] for k in range(d)] for i in idx])
+        X = [[rng.uniform(0.02, 0.98) for _ in range(d)] for _ in range(6)]
+        X += [[rng.choice(stripes[k][1:-1]) for k in range(d)] for _ in range(6)]                                    # every coordinate on a grid line
+        X += [[rng.choice(stripes[k][1:-1]) if k == j % d else rng.uniform(0.02, 0.98) for k in range(d)] for j in range(6)]   # one coordinate on a grid line
+        X = np.array(X)
+        op = object.__new__(DensityEstimation)
+        op.dim, op.grid = d, SimpleNamespace(modified_basis=False)
+        got = None
+        with ctx.guard("B.class.density_kernel", site, "raises"):
+            got = np.asarray(op.hat_function_non_symmetric_completely_vectorized(P, LO, HI, X), dtype=float)
+        if got is None:
+            continue
+        want = np.array([[float(np.prod([hat(x[k], LO[j][k], P[j][k], HI[j][k]) for k in range(d)])) for j in range(len(idx))] for x in X])
+        ok = got.shape == want.shape and bool(np.all(np.abs(got - want) <= 1e-12))
+        worst = None
+        if got.shape == want.shape and not ok:
+            n_, j_ = np.unravel_index(int(np.argmax(np.abs(got - want))), want.shape)
+            worst = (X[n_].tolist(), P[j_].tolist(), float(got[n_, j_]), float(want[n_, j_]))
+        ctx.check("B.class.density_kernel", ok, site, "samples-on-grid-lines", "d=%d: (sample, hat centre, library value, hat value) %s" % (d, worst))
+
+
 def run(ctx):
+    density_kernel_cases(ctx)
     for case in directed():
         ctx.case(case)
         run_case(ctx, case)
@@ -615,4 +661,6 @@ def run(ctx):
 
 
 def replay(ctx, case):
+    if case.get("kind") == "density-kernel":
+        return density_kernel_cases(ctx)
     run_case(ctx, case)
